@@ -253,8 +253,9 @@ def drop_added_nsdecls(va, vb):
     return out
 
 
-def texts_of(ev):
-    """(context, string) for every string of the tree that the serializer writes"""
+def texts_of(ev, refs_kept=False):
+    """(context, string) for every string of the tree that the serializer writes; with refs_kept (entities=true) the content below an
+    entity reference node is not written - only the reference is"""
     out = []
     in_cd = False
     in_dt = False
@@ -273,10 +274,13 @@ def texts_of(ev):
         elif in_dt:
             continue
         elif t == 'SER':
+            if not (er and refs_kept):
+                out.append(('eref-name', e[1]))
             er += 1
-            out.append(('eref-name', e[1]))
         elif t == 'EER':
             er -= 1
+        elif er and refs_kept:
+            continue
         elif t == 'SE':
             out.append(('elem-name', e[1]))
             for a in e[4]:
@@ -421,12 +425,12 @@ def _subset_losses(s, ver):
 # ---------------------------------------------------------------------------------------------------
 #  expected-error classification from the tree
 # ---------------------------------------------------------------------------------------------------
-def tree_reasons(ev, enc, ver, split, whole, doctype_written):
+def tree_reasons(ev, enc, ver, split, whole, doctype_written, refs_kept=False):
     """-> (must: set of classes for which serialisation must report an error, may: set of classes where it is not decided,
            notes: dict of facts used later)"""
     must, may = set(), set()
     notes = collections.Counter()
-    for ctx, s in texts_of(ev):
+    for ctx, s in texts_of(ev, refs_kept):
         if ctx == 'doctype' and not doctype_written:
             continue
         if ctx == 'attr-default':
@@ -570,7 +574,7 @@ def doc_cases(ck, n, per_doc, tag):
                 ops.append(('', {'op': 'rmxmlns', 'at': r.randint(0, 5)}))
                 cls = 'parsed-rmxmlns'
             finish_case_opts(o, mode)
-            c = core.Case('%sd%d.%d' % (tag, i, k), 'serialize', o, meta={'mode': mode, 'class': cls, 'ver': cx.version, 'src': 'xmlgen', 'tags': sorted(cx.tags)})
+            c = core.Case('%sd%d.%d' % (tag, i, k), 'serialize', o, ents=g.get('ents') or [], meta={'mode': mode, 'class': cls, 'ver': cx.version, 'src': 'xmlgen', 'tags': sorted(cx.tags)})
             c.doc(g['bytes'])
             for v, oo in ops:
                 c.txt(v, **oo)
@@ -906,12 +910,24 @@ DEFAULT_IGNORABLE = set([0xAD, 0x34F, 0x61C, 0x115F, 0x1160, 0x17B4, 0x17B5, 0x3
 ICU_ENCODINGS = ('ISO-8859-2', 'Shift_JIS')
 
 
+REFS_KEPT = [False]      # set by the judge for the case at hand: content below entity reference nodes is not written
+
+
 def _map_texts(ev, f_text, f_attr=None, only_cdata=False, f_other=None):
-    """apply f_text to character data (inside CDATA sections only when only_cdata) and f_attr to attribute values"""
+    """apply f_text to character data (inside CDATA sections only when only_cdata) and f_attr to attribute values; content below an
+    entity reference node is left alone when references are kept (it is not written, so no loss of the writer can touch it)"""
     out = []
     in_cd = False
+    er = 0
     for e in ev:
         t = e[0]
+        if t == 'SER':
+            er += 1
+        elif t == 'EER':
+            er -= 1
+        if er and REFS_KEPT[0] and t not in ('SER', 'EER'):
+            out.append(e)
+            continue
         if t == 'CD0':
             in_cd = True
         elif t == 'CD1':
@@ -1014,6 +1030,9 @@ class Judge:
         if o.A is None or o.node is None:
             st['no_tree'] += 1
             return False
+        for l in o.misc:
+            if l.startswith('P1SRV\t'):
+                st['cases_with_external_entities_served'] += 1
         ver = o.node[1] or '1.0'
         whole = o.node[0] == 'doc'
         from_doc = False
@@ -1045,11 +1064,11 @@ class Judge:
         self.feat_seen['version=' + ver] += 1
 
         # --- what does the tree contain?
-        must, may, notes = tree_reasons(o.A, eff_enc, ver, split, whole, has_dt and whole)
+        must, may, notes = tree_reasons(o.A, eff_enc, ver, split, whole, has_dt and whole, refs_kept=ents)
         for k, v in notes.items():
             st['tree:' + k] += 1
         failed = (o.W is None) or o.W[0] != '1' or o.wexc is not None or int(o.W[2]) > 0 or int(o.W[3]) > 0
-        nontrivial = bool(notes) or bool(must) or cls != 'parsed' or any(ch in s for ctx, s in texts_of(o.A) if ctx in ('text', 'attr') for ch in '<&>"\r\t\n')
+        nontrivial = bool(notes) or bool(must) or cls != 'parsed' or any(ch in s for ctx, s in texts_of(o.A, ents) if ctx in ('text', 'attr') for ch in '<&>"\r\t\n')
 
         if failed:
             st['serialisation_reported_error'] += 1
@@ -1110,7 +1129,7 @@ class Judge:
         # --- unrepresentable characters must appear as references (ASCII-transparent encodings: the text is readable)
         if eff_enc in ('US-ASCII', 'ISO-8859-1', 'ISO-8859-2', 'windows-1252') and (notes.get('unrep-text') or notes.get('unrep-attr') or notes.get('unrep-cdata-split')):
             want = collections.Counter()
-            for ctx, s in texts_of(o.A):
+            for ctx, s in texts_of(o.A, ents):
                 if ctx in ('text', 'attr') or (ctx == 'cdata' and split) or (ctx == 'attr-default' and not ddc):
                     for ch in s:
                         if rep(eff_enc, ch) is False and ord(ch) <= 0xFFFF:
@@ -1118,7 +1137,7 @@ class Judge:
             have = collections.Counter(int(x, 16) for x in _re_charref.findall(text))
             missing = [k for k, v in want.items() if have[k] < v]
             st['charref_checked'] += 1
-            if missing and not (eref and ents):      # text under entity reference nodes is not written
+            if missing:
                 if eff_enc in ICU_ENCODINGS and all(k in DEFAULT_IGNORABLE for k in missing):
                     key = 'C12:unrep-not-referenced:icu-default-ignorable-dropped'
                 else:
@@ -1133,7 +1152,7 @@ class Judge:
                 self.viol('C12:reparse-fatal:internal-subset-%s' % doctype_cls, 'the output is not well-formed: the DOCTYPE reconstruction kept by the DOM is not a faithful spelling', c, o, subset=dis)
                 return True
             why = cls + ':' + code
-            supp_unrep = any(ord(ch) > 0xFFFF and rep(eff_enc, ch) is not True for ctx, s in texts_of(o.A) if ctx in ('text', 'attr', 'attr-default') for ch in s)
+            supp_unrep = any(ord(ch) > 0xFFFF and rep(eff_enc, ch) is not True for ctx, s in texts_of(o.A, ents) if ctx in ('text', 'attr', 'attr-default') for ch in s)
             if from_doc and whole and not re.fullmatch(r'[A-Za-z][A-Za-z0-9._-]*', decl_enc):
                 why = 'xmldecl-encoding-from-document-not-an-encname'
             if why.startswith(cls) and 'unrep:attr-name' in may and re.search(r'[\s][^\s=<>"]*&#x[0-9A-F]+;[^\s=<>"]*=', text):
@@ -1221,6 +1240,7 @@ class Judge:
         if not equal:
             # name the loss: which single modelled transformation (or smallest combination) of A gives B?
             H = hypotheses(eff_enc, ver, split)
+            REFS_KEPT[0] = bool(ents)
             named = None
             for k in range(1, len(H) + 1):
                 for combo in (itertools.permutations(H, k) if k <= 3 else itertools.combinations(H, k)):
